@@ -1525,6 +1525,168 @@ fn unmodified_case(_t: Tier) -> impl Strategy<Value = Case> {
     })
 }
 
+// ---------------------------------------------------------------------------------------------
+// transfer questions against every kind of zone handler: the policy is enforced inside each
+// handler, the routing to `zone_transfer` happens in the catalog. Small scope, enumerated whole.
+
+#[derive(Clone, Copy, Debug, PartialEq, Eq, Serialize, Deserialize)]
+pub enum XferSigning {
+    Unsigned,
+    /// signed with a configured key, inside the window
+    Valid,
+    /// configured key name, another secret
+    WrongSecret,
+    /// configured key, Time Signed more than fudge before the server's clock
+    Stale,
+}
+
+#[derive(Clone, Debug, Serialize, Deserialize)]
+pub struct XferCase {
+    /// true: `InMemoryZoneHandler` (the code `FileZoneHandler` delegates to); false: `SqliteZoneHandler`
+    pub in_memory: bool,
+    /// 0 Deny, 1 AllowSigned, 2 AllowAll
+    pub policy: u8,
+    /// question type: 252 AXFR, 251 IXFR
+    pub qtype: u16,
+    /// RFC 1995: an IXFR request carries the client's SOA in the authority section
+    pub client_soa: bool,
+    pub signing: XferSigning,
+    pub edns: bool,
+    pub tcp: bool,
+}
+
+fn xfer_cases() -> Vec<XferCase> {
+    let mut v = Vec::new();
+    for in_memory in [true, false] {
+        for policy in 0..3u8 {
+            for (qtype, client_soa) in [(252u16, false), (251, false), (251, true)] {
+                for signing in [XferSigning::Unsigned, XferSigning::Valid, XferSigning::WrongSecret, XferSigning::Stale] {
+                    for edns in [false, true] {
+                        for tcp in [true, false] {
+                            v.push(XferCase { in_memory, policy, qtype, client_soa, signing, edns, tcp });
+                        }
+                    }
+                }
+            }
+        }
+    }
+    v
+}
+
+fn xfer_body(c: &XferCase, rec: &mut Rec) -> CaseResult {
+    let policy = match c.policy {
+        0 => AxfrPolicy::Deny,
+        1 => AxfrPolicy::AllowSigned,
+        _ => AxfrPolicy::AllowAll,
+    };
+    let (t, fudge) = (1_700_000_000u64, 300u16);
+    let k1 = k("k1.keys.test.", S1, Alg::Sha256);
+    let origin = to_name(&updates::origin());
+    let zone = base_zone();
+    let mut m = Message::new(0x4242, MessageType::Query, OpCode::Query);
+    m.add_query(Query::new(origin.clone(), RecordType::from(c.qtype)));
+    if c.client_soa {
+        let soa = hickory_proto::rr::rdata::SOA::new(name_from_str("ns1.zone.test."), name_from_str("admin.zone.test."), 7, 3600, 600, 86400, 60);
+        m.add_authority(Record::from_rdata(origin.clone(), 300, RData::SOA(soa)));
+    }
+    if c.edns {
+        let mut e = Edns::new();
+        e.set_max_payload(1232);
+        m.set_edns(e);
+    }
+    let bytes = match c.signing {
+        XferSigning::Unsigned => m.to_vec().map_err(|e| Fail::new("client-encode-failed", e.to_string()))?,
+        s => {
+            let key = if s == XferSigning::WrongSecret { k("k1.keys.test.", SX, Alg::Sha256) } else { k1.clone() };
+            m.finalize(&hickory_signer(&key, fudge), t).map_err(|e| Fail::new("client-signer-failed", e.to_string()))?;
+            m.to_vec().map_err(|e| Fail::new("client-encode-failed", e.to_string()))?
+        }
+    };
+    let now = if c.signing == XferSigning::Stale { t + fudge as u64 + 100 } else { t + 1 };
+
+    let mut catalog = Catalog::new();
+    if c.in_memory {
+        let serial = zone.serial().ok_or_else(|| Fail::new("harness-init", "model zone without SOA"))?;
+        let mut im: hickory_server::store::in_memory::InMemoryZoneHandler<hickory_net::runtime::TokioRuntimeProvider> =
+            hickory_server::store::in_memory::InMemoryZoneHandler::empty(origin.clone(), hickory_server::zone_handler::ZoneType::Primary, policy, None);
+        for ((name, rtype, rdata), ttl) in &zone.rrs {
+            let r = record_from_wire(&zrr_wire(name, *rtype, *ttl, rdata)).map_err(|e| Fail::new("harness-init", e))?;
+            if !im.upsert_mut(r, serial) {
+                return Err(Fail::new("harness-init", "upsert_mut refused a base-zone record"));
+            }
+        }
+        let h: Arc<dyn ZoneHandler> = Arc::new(im);
+        catalog.upsert(origin.clone().into(), vec![h]);
+    } else {
+        let mut h = build_handler(&zone, policy).map_err(|e| Fail::new("harness-init", e))?;
+        h.set_tsig_signers(vec![hickory_signer(&k1, fudge)]);
+        let h = Arc::new(h);
+        catalog.upsert(h.origin().clone(), vec![h.clone()]);
+    }
+    let fd = VerifFrontDoor::new(catalog, Vec::<ipnet::IpNet>::new(), Vec::<ipnet::IpNet>::new());
+    let (tx, mut rx) = BufDnsStreamHandle::new(src_addr());
+    let proto = if c.tcp { Protocol::Tcp } else { Protocol::Udp };
+    let outcome = {
+        let _clock = VirtualClock::start(now);
+        catch(|| block_on(fd.handle(bytes.clone(), src_addr(), proto, tx)))
+    };
+    if let Err(p) = outcome {
+        return Err(panic_fail(&p));
+    }
+    let mut replies = Vec::new();
+    while let Some(Some(m)) = rx.next().now_or_never() {
+        replies.push(m.into_parts().0);
+    }
+    let handler = if c.in_memory { "in-memory" } else { "sqlite" };
+    let q = if c.qtype == 252 { "AXFR" } else { "IXFR" };
+    rec.class(format!("handler={handler}"));
+    rec.class(format!("policy={policy:?}"));
+    rec.class(format!("question={q}{}", if c.client_soa { "+client-soa" } else { "" }));
+    rec.class(format!("signing={:?}", c.signing));
+    // a transfer is a run of the zone's records between two SOAs: anything beyond one RR in the
+    // answer section (over all messages of the reply) is zone data handed out in bulk
+    let mut answers = 0usize;
+    let mut rcode = 0u8;
+    for b in &replies {
+        let r = split_reply(b)?;
+        answers += r.answers;
+        rcode = r.rcode;
+    }
+    let transferred = answers >= 2;
+    // a key is configured on the sqlite handler only; the in-memory handler knows no keys at all
+    let authorised = !c.in_memory && c.signing == XferSigning::Valid;
+    let allowed = match policy {
+        AxfrPolicy::AllowAll => true,
+        AxfrPolicy::AllowSigned => authorised,
+        _ => false,
+    };
+    rec.class(format!("outcome={}", if transferred { "zone-data" } else { "no-zone-data" }));
+    vensure!(
+        !transferred || allowed,
+        "zone-transferred-without-valid-tsig",
+        "{q} question ({:?}, {}) to the {handler} handler under {policy:?} was answered with {answers} RRs (rcode {rcode}); request {}",
+        c.signing,
+        if c.tcp { "tcp" } else { "udp" },
+        crate::core::hexser::to_hex(&bytes)
+    );
+    // completeness, where the statement is unambiguous: an AXFR that the policy admits is served
+    if c.qtype == 252 && c.tcp && ((policy == AxfrPolicy::AllowAll && c.signing == XferSigning::Unsigned) || (policy == AxfrPolicy::AllowSigned && authorised)) {
+        vensure!(
+            transferred,
+            "admitted-transfer-not-served",
+            "AXFR ({:?}) to the {handler} handler under {policy:?} came back with {answers} RRs (rcode {rcode}); request {}",
+            c.signing,
+            crate::core::hexser::to_hex(&bytes)
+        );
+        rec.class("completeness-asserted");
+    }
+    rec.nontrivial();
+    if rec.wants_note() {
+        rec.note(format!("{q} {:?} -> {handler} under {policy:?}: {answers} answer RRs, rcode {rcode}", c.signing));
+    }
+    Ok(())
+}
+
 const ENUM_KINDS: [Kind; 4] = [Kind::Update, Kind::UpdateWithPrereq, Kind::AxfrAllowSigned, Kind::AxfrDeny];
 const ENUM_ALGS: [Alg; 3] = [Alg::Sha256, Alg::Sha384, Alg::Sha512];
 
@@ -1590,16 +1752,21 @@ pub fn check() -> Option<Check> {
         },
         body,
     );
+    let xfer = enumerate(
+        "transfer_questions_all_handlers",
+        |_env: &Env| (Box::new(xfer_cases().into_iter()) as Box<dyn Iterator<Item = XferCase> + Send>, true),
+        xfer_body,
+    );
     Some(Check {
         id: "C13",
         level: "exploration",
-        rule: "requests built and TSIG-signed by hickory's client (UPDATE with/without prerequisite; AXFR under Deny/AllowAll/AllowSigned; HMAC-SHA256/384/512; with/without EDNS; key sets: none, one, two, same name/other secret, same name twice, other name/same secret, other algorithm; Time Signed normal, < fudge, around 2^32; fudge 0, 1, 300, 65535) x server clock {t-fudge-1, t-fudge, inside, t, t+fudge, t+fudge+1, far} x mutation {bit flip, byte set, section-count set/shift, TSIG field edit with original or recomputed MAC (key name, algorithm, time, fudge, MAC truncated/extended/flipped, original ID, error, other data, class, TTL), TSIG removed/duplicated/not last, trailing octets, header ID, re-signed by the reference signer}; every_request_bit_flip enumerates all single-bit flips of 12 base requests, every_mac_length all MAC lengths; for unmodified in-window requests every single-bit flip of the reply is given to TSigVerifier; configured_from_files runs unmodified / unsigned / mutated requests against a handler built by SqliteZoneHandler::try_from_config from a zone file, key files and a journal in a scratch directory, half of them after a restart that recovers the zone from the journal (same oracle: policy and keys must survive the configuration path); client_multiplexer_replies: the request leaves through the real DnsMultiplexer::with_signer, the server's reply returns through it unmodified, bit-flipped, byte-set, with the TSIG removed, re-signed with another secret or for another request MAC, or with trailing octets: whatever reaches the caller as Ok must carry the RFC 8945 5.3 response MAC, and the unmodified reply must arrive; client_udp_replies: the same through the real UdpClientStream::with_signer on the simulated runtime, where the reply is a sequence of 1-3 datagrams (each the genuine reply or one of those edits) because the stream examines up to three datagrams per request: whichever datagram the caller ends up with must be authentic. Non-trivial = distinct case AND (the mutation touches a signed octet, the MAC or a TSIG field, OR the clock is within 1 of a fudge edge, OR the completeness clause incl. the reply-flip sweep ran)",
+        rule: "requests built and TSIG-signed by hickory's client (UPDATE with/without prerequisite; AXFR under Deny/AllowAll/AllowSigned; HMAC-SHA256/384/512; with/without EDNS; key sets: none, one, two, same name/other secret, same name twice, other name/same secret, other algorithm; Time Signed normal, < fudge, around 2^32; fudge 0, 1, 300, 65535) x server clock {t-fudge-1, t-fudge, inside, t, t+fudge, t+fudge+1, far} x mutation {bit flip, byte set, section-count set/shift, TSIG field edit with original or recomputed MAC (key name, algorithm, time, fudge, MAC truncated/extended/flipped, original ID, error, other data, class, TTL), TSIG removed/duplicated/not last, trailing octets, header ID, re-signed by the reference signer}; every_request_bit_flip enumerates all single-bit flips of 12 base requests, every_mac_length all MAC lengths; for unmodified in-window requests every single-bit flip of the reply is given to TSigVerifier; configured_from_files runs unmodified / unsigned / mutated requests against a handler built by SqliteZoneHandler::try_from_config from a zone file, key files and a journal in a scratch directory, half of them after a restart that recovers the zone from the journal (same oracle: policy and keys must survive the configuration path); client_multiplexer_replies: the request leaves through the real DnsMultiplexer::with_signer, the server's reply returns through it unmodified, bit-flipped, byte-set, with the TSIG removed, re-signed with another secret or for another request MAC, or with trailing octets: whatever reaches the caller as Ok must carry the RFC 8945 5.3 response MAC, and the unmodified reply must arrive; client_udp_replies: the same through the real UdpClientStream::with_signer on the simulated runtime, where the reply is a sequence of 1-3 datagrams (each the genuine reply or one of those edits) because the stream examines up to three datagrams per request: whichever datagram the caller ends up with must be authentic. transfer_questions_all_handlers enumerates {InMemoryZoneHandler (the code FileZoneHandler delegates to), SqliteZoneHandler with one key} x {Deny, AllowSigned, AllowAll} x {AXFR, IXFR, IXFR with the client's SOA in the authority section} x {unsigned, signed in the window by the configured key, same key name with another secret, configured key but stale} x EDNS x {TCP, UDP} through Catalog and the front door: two or more answer RRs (a transfer) only if the policy is AllowAll or it is AllowSigned and the sqlite handler got the valid signature; an admitted AXFR over TCP is served. Non-trivial = distinct case AND (the mutation touches a signed octet, the MAC or a TSIG field, OR the clock is within 1 of a fudge edge, OR the completeness clause incl. the reply-flip sweep ran)",
         assumptions: vec![
             "octets RFC 8945 leaves outside the MAC (header ID via original-ID substitution, TSIG CLASS and TTL which enter the digest as constants, case of key/algorithm names, octets after the last counted record) may change without the request or reply counting as modified",
             "a key set with the same key name configured twice is outside the completeness clause (recorded)",
             "answers to non-AXFR questions (e.g. an UPDATE whose opcode was flipped to QUERY) are public data, not 'zone data returned'",
             "server clock = interposed CLOCK_REALTIME read by Time::current_time()",
         ],
-        subs: vec![mutations, complete, configured, client, client_udp, flips, trunc],
+        subs: vec![mutations, complete, configured, client, client_udp, flips, trunc, xfer],
     })
 }
